@@ -33,7 +33,8 @@ impl Updater for RecUpdater {
 }
 
 /// file: object 1 = `dict`, aux objects, id 60 free, id 61 inside a gap, ids >= 70 beyond the table
-pub fn build(dict: &str, aux: &Value) -> Vec<u8> {
+pub fn build(dict: &str, aux: &Value) -> Vec<u8> { build_with_trailer(dict, aux, "") }
+pub fn build_with_trailer(dict: &str, aux: &Value, trailer_extra: &str) -> Vec<u8> {
     let mut d = Doc::new(b"");
     let mut e: Vec<(u64, XEntry)> = vec![(0, XEntry::Free { next: 60, gen: 65535 })];
     let o = d.obj(1, 0, dict.as_bytes());
@@ -55,8 +56,9 @@ pub fn build(dict: &str, aux: &Value) -> Vec<u8> {
     // without a generation column): common in practice, and the newest mention still says free
     let o = d.obj(63, 0, b"<< /Type /Pages /Kids [] /Count 0 /Stale true >>");
     e.push((63, XEntry::InUse { off: o, gen: 0 }));
-    let first = d.xref_table(&e, 70, "/Root 68 0 R", None, Split::Min);
-    d.xref_table(&[(62, XEntry::Free { next: 0, gen: 1 }), (63, XEntry::Free { next: 0, gen: 0 })], 70, "/Root 68 0 R", Some(first), Split::Min);
+    let tr = format!("/Root 68 0 R {}", trailer_extra);
+    let first = d.xref_table(&e, 70, &tr, None, Split::Min);
+    d.xref_table(&[(62, XEntry::Free { next: 0, gen: 1 }), (63, XEntry::Free { next: 0, gen: 0 })], 70, &tr, Some(first), Split::Min);
     d.buf
 }
 
@@ -133,5 +135,18 @@ pub fn run(cases_path: &str, report_path: &str, _opts: &[String]) {
     }
     rep.add("models_covered", usable.len() as u64);
     rep.add("models_not_covered", unusable.len() as u64);
+    // the trailer's optional /Encrypt entry naming a free / undefined object: the document is not encrypted and loads
+    for (label, r) in [("free", "60 0 R"), ("freed-by-update", "62 0 R"), ("gap", "61 0 R"), ("beyond", "99 0 R")] {
+        for tolerant in [false, true] {
+            rep.execs += 1;
+            let bytes = build_with_trailer("<< /Type /Pages /Kids [] /Count 0 >>", &json!({"51": "<< /Type /Pages /Kids [] /Count 0 >>"}), &format!("/Encrypt {} /ID [<00> <00>]", r));
+            let opts = if tolerant { ParseOptions::tolerant() } else { ParseOptions::strict() };
+            match guarded(|| FileOptions::uncached().parse_options(opts).load(bytes.clone()).map(|f| f.get_root().pages.count)) {
+                Outcome::Done(Ok(_)) => {}
+                Outcome::Done(Err(e)) => rep.fail(&format!("rejected:trailer:Encrypt:{}:{}", label, if tolerant { "tolerant" } else { "strict" }), json!({"case": {"trailer": "Encrypt", "ref": r}, "observed": crate::observe::err_json(&e)})),
+                Outcome::Panic(p) => rep.fail(&format!("panic:trailer:Encrypt:{}", label), json!({"case": {"trailer": "Encrypt", "ref": r}, "observed": panic_json(&p)})),
+            }
+        }
+    }
     rep.write(report_path);
 }
